@@ -39,13 +39,13 @@ def fail(ctx, what, detail, kind):
     ctx.report({"unchecked": what, "detail": detail[-3000:]}, {"kind": kind}, failing_input=False)
 
 
-def judge(ctx, case_type, judge_fn, terms, canary, shard=250, nontrivial=None, tag="cases"):
+def judge(ctx, case_type, judge_fn, terms, canary, shard=250, nontrivial=None, tag="cases", header=None):
     """ctx.judge_cases with a canary: a case known to be judged bad is put first and last; if the
     machinery does not report both, the evaluation is not trusted (guards against a silent pass
     when output parsing or the judge itself breaks).  Returns (bad, nontrivial_count, err) with
     indices relative to `terms`."""
     allt = [canary] + list(terms) + [canary]
-    bad, nt, err = ctx.judge_cases(HEADER, case_type, judge_fn, allt, shard=shard,
+    bad, nt, err = ctx.judge_cases(header or HEADER, case_type, judge_fn, allt, shard=shard,
                                    nontrivial=nontrivial, tag=tag)
     if err:
         return [], 0, err
@@ -124,3 +124,63 @@ def load_corpus(pid):
                 except ValueError:
                     pass
     return out
+
+
+# ---------------------------------------------------------------- generator (gerror CLI) support
+def build_gerror_cli(ctx):
+    """build the real gerror CLI from the scratch copy of the current tree (workspace mode, as
+    the repository itself builds it).  Returns (path, log)."""
+    out = os.path.join(ctx.scratch, "bin", "gerror")
+    if os.path.isfile(out):
+        return out, ""
+    os.makedirs(os.path.dirname(out), exist_ok=True)
+    env = dict(os.environ)
+    env.update(GOPROXY="off", GOSUMDB="off", GOTOOLCHAIN="local", CGO_ENABLED="0")
+    env.pop("GOFLAGS", None)
+    env.pop("GOWORK", None)
+    rc, log = vlib.sh(["go", "build", "-o", out, "./gerror/cmd/gerror"], cwd=ctx.copy_repo(), env=env,
+                      timeout=900)
+    return (out if rc == 0 else None), log
+
+
+def run_gerror_cli(ctx, cli, pkgdir, gofile, types, skip_convert=False, tags="gerrgen", out=None):
+    """run the CLI as go:generate would (cwd = package dir, GOFILE set).  Returns (rc, log)."""
+    env = vlib.go_env()
+    env["GOFLAGS"] = "-mod=mod -tags=%s" % tags if tags else "-mod=mod"
+    env["GOFILE"] = gofile
+    env["GOPACKAGE"] = "main"
+    env["PWD"] = pkgdir      # gencommon resolves GOFILE against $PWD, not the process cwd
+    args = [cli, "--types=" + ",".join(types)]
+    if skip_convert:
+        args.append("--skipConvertGen")
+    if out:
+        args += ["--out", out]
+    return vlib.sh(args, cwd=pkgdir, env=env, timeout=300)
+
+
+def xlate(ctx, args):
+    """build (once) and run the wiring translator; returns (rc, output)"""
+    binp = getattr(ctx, "_xlate_bin", None)
+    if not binp:
+        binp, log = ctx.build_harness("xlate_gerr_wiring")
+        if not binp:
+            return 1, "translator build failed:\n" + log
+        ctx._xlate_bin = binp
+    return vlib.sh([binp] + args, timeout=120)
+
+
+def tie_base_wiring(ctx):
+    """(T) regenerate the wiring table of GError's 19 methods from gerror/gerror.go and check it
+    equal to GErrModel.base_wiring by computation.  Returns (ok, detail)."""
+    src = os.path.join(ctx.copy_repo(), "gerror", "gerror.go")
+    rc, out = xlate(ctx, ["-base", src, "-name", "gen_base_wiring"])
+    if rc != 0:
+        return False, "translator could not read gerror/gerror.go: " + out
+    v = ("From Coq Require Import List.\nImport ListNotations.\nFrom GT Require Import GErrModel.\n"
+         + out +
+         "\nLemma tie_base_wiring : map gen_base_wiring all_methods = map base_wiring all_methods.\n"
+         "Proof. vm_compute. reflexivity. Qed.\n")
+    rc, out2 = ctx.coq_eval("GErrWiringGen_base_%s" % ctx.pid, v, timeout=300)
+    if rc != 0:
+        return False, out2
+    return True, "gen_base_wiring (from gerror/gerror.go, 19 methods) = GErrModel.base_wiring by vm_compute"
